@@ -27,6 +27,8 @@ pub use compress::CompressionType;
 pub use db::{check::CheckOptions, Db, Operation, TreeReader, Value};
 #[cfg(feature = "instrumentation")]
 pub use error::set_number_of_allowed_io_operations;
+#[cfg(all(feature = "instrumentation", parity_db_verif))]
+pub use error::verif_remaining_io_operations;
 pub use error::{Error, Result};
 pub use migration::{clear_column, migrate};
 pub use multitree::{Children, NewNode, NodeAddress, NodeRef};
